@@ -337,6 +337,23 @@ impl<'tcx> Dumper<'tcx> {
                         }
                     }
                 }
+            } else if inner.is_integral() || inner.is_bool() {
+                // reference to a scalar (promoted `&0u8` etc.): the pointee's value
+                if let Ok(ConstValue::Scalar(mir::interpret::Scalar::Ptr(ptr, _))) = c.const_.eval(tcx, tenv, rustc_span::DUMMY_SP) {
+                    let (prov, off) = ptr.into_raw_parts();
+                    if let Some(mir::interpret::GlobalAlloc::Memory(m)) = tcx.try_get_global_alloc(prov.alloc_id()) {
+                        let a = m.inner();
+                        let start = off.bytes() as usize;
+                        if start <= a.len() && a.len() - start <= 16 && a.provenance().ptrs().is_empty() {
+                            let bytes = a.inspect_with_uninit_and_ptr_outside_interpreter(start..a.len());
+                            let mut v: u128 = 0;
+                            for (i, b) in bytes.iter().enumerate() {
+                                v |= (*b as u128) << (8 * i);
+                            }
+                            items.push(("pv", js(&v.to_string())));
+                        }
+                    }
+                }
             } else if let ty::Array(elem, len) = inner.kind() {
                 // byte string literals: &[u8; N]
                 if *elem == tcx.types.u8 {
